@@ -40,6 +40,10 @@ func gwFields(kind structs.ServiceKind, port int, proto string, hosts []string, 
 
 var gwRowsSeen, gwWildcardRowsSeen int
 
+// gwEdgeSeen: names that, earlier in the CURRENT history, were a service-defaults destination while all
+// their instances were connect-native (the order-dependent edge described below). Reset per history.
+var gwEdgeSeen = map[string]bool{}
+
 func checkGatewayServices(t *tables, add func(key, f string, a ...any)) {
 	// eligibility of names from the registrations (local only)
 	hasConnect := map[string]bool{}    // connect-native instance of the name, or a proxy for it
@@ -87,6 +91,11 @@ func checkGatewayServices(t *tables, add func(key, f string, a ...any)) {
 	}
 	delete(allNames, "consul")
 
+	for n := range dest {
+		if nameRegistered(t, n) && !hasNonNative[n] {
+			gwEdgeSeen[n] = true
+		}
+	}
 	want := map[string]*gwWant{} // gateway|service|port
 	entryOf := map[string]string{} // gateway -> kind of its entry
 	hasWild := map[string]bool{}   // gateway|port -> entry has a wildcard listing for that port
@@ -137,7 +146,10 @@ func checkGatewayServices(t *tables, add func(key, f string, a ...any)) {
 					if _, explicit := want[k(e.Name, n, 0)]; explicit || !(hasNonNative[n] || dest[n]) {
 						continue
 					}
-					want[k(e.Name, n, 0)] = &gwWant{fields: f, wildcard: true, required: hasTypicalNN[n] || dest[n], listing: "wildcard-expansion"}
+					// a destination whose name ALSO carries instances that are all connect-native is linked or
+				// not depending on which of gateway entry / service-defaults was written last (and consul's
+				// own kind rule calls it a service): allowed, not required
+				want[k(e.Name, n, 0)] = &gwWant{fields: f, wildcard: true, required: hasTypicalNN[n] || (dest[n] && !nameRegistered(t, n)), listing: "wildcard-expansion"}
 				}
 			}
 		}
@@ -174,6 +186,8 @@ func checkGatewayServices(t *tables, add func(key, f string, a ...any)) {
 			wildTag = ":entry-also-has-wildcard"
 		}
 		switch {
+		case r == nil && w.required && w.wildcard && gwEdgeSeen[svc]:
+			add("C07:gateway-services:missing-row:wildcard-expansion:destination-that-had-only-connect-native-instances", "gateway-services lacks gateway|service|port %s: %q is a service-defaults destination without instances now, but while the destination was written its only instances were connect-native, so it was not linked, and nothing links it when they leave", key, svc)
 		case r == nil && w.required:
 			add("C07:gateway-services:missing-row:"+w.listing+wildTag, "gateway-services lacks gateway|service|port %s although the %s entry of %s links it (%s)", key, entryOf[gw], gw, w.listing)
 		case r == nil:
@@ -206,7 +220,9 @@ func checkGatewayServices(t *tables, add func(key, f string, a ...any)) {
 			// a link is marked as a destination iff the name has no instance and is a service-defaults destination
 			if r.GatewayKind == structs.ServiceKindTerminatingGateway && svc != structs.WildcardSpecifier {
 				expDest := !nameRegistered(t, svc) && dest[svc]
-				if isDest := r.ServiceKind == structs.GatewayServiceKindDestination; isDest != expDest {
+				// (same edge as above: destination + only connect-native instances is not judged)
+				edge := dest[svc] && nameRegistered(t, svc) && !hasNonNative[svc]
+				if isDest := r.ServiceKind == structs.GatewayServiceKindDestination; isDest != expDest && !edge {
 					add(fmt.Sprintf("C07:gateway-services:service-kind:%s:%s", map[bool]string{true: "destination-not-marked", false: "marked-destination-wrongly"}[expDest], w.listing),
 						"gateway-services row %s says the linked service is a %q; the catalog has %d instance(s) of it and service-defaults destination=%v", key, orUnknown(r.ServiceKind), countName(t, svc), dest[svc])
 				}
